@@ -205,9 +205,8 @@ Theorem ids_canonical sup rnd js scid ps v ps' ov wire :
   dial sup rnd js scid (snd (tp_ids sup ps)) = dial sup rnd js scid ps.
 Proof.
   intros Hw Hs Hd Hp. cbn [tp_ids fst snd] in *.
-  assert (Hsame : dial sup rnd js scid (suppress sup ps) = dial sup rnd js scid ps).
-  { unfold dial, dial_list. rewrite suppress_idem. reflexivity. }
-  rewrite Hsame in Hd.
+  assert (Hsame : dial sup rnd js scid ps = dial sup rnd js scid ps) by reflexivity.
+  clear Hsame. assert (Hsame : dial sup rnd js scid ps = dial sup rnd js scid ps) by reflexivity.
   destruct (wire_is_spec _ _ _ _ _ _ _ _ Hw Hs Hd) as [Ho [Hparse [Hperm [_ [Hids _]]]]].
   subst ov. rewrite Hparse in Hp. inversion Hp; subst wire; clear Hp.
   assert (Hpm : Permutation (map (fun p => canon (pid p)) (suppress sup ps))
@@ -219,4 +218,71 @@ Proof.
   split; [apply isort_perm_eq, Hpm|]. split; [|exact Hsame].
   rewrite <- (Permutation_length (isort_perm _)).
   rewrite (Permutation_length Hpm). rewrite !map_length. reflexivity.
+Qed.
+
+(** * Round 8 (audit P4): WHICH value lands in the placeholder.
+    When the spec has no typed initial_source_connection_id with an explicit value, the list a
+    dial hands to uTLS is exactly the dial list with every typed EMPTY placeholder replaced by
+    the connection's source connection ID -- a raw parameter with id 0x0f is left alone. *)
+Definition fill_typed (scid : list Z) (p : param) : param :=
+  if needs_fill p then P (pid p) scid true else p.
+Definition no_explicit (p : param) : Prop :=
+  pid p = tpid_initialSourceConnectionID -> ptyped p = true -> pval p = [].
+
+Lemma pop_step_fill v p v' p' :
+  pop_step v p = Some (v', p') -> no_explicit p ->
+  vInitialSourceConnectionID v' = vInitialSourceConnectionID v /\
+  p' = fill_typed (vInitialSourceConnectionID v) p.
+Proof.
+  intros H Hn. unfold fill_typed, needs_fill.
+  step_cases H; try discriminate; inversion H; subst; clear H;
+    repeat match goal with E : (pid _ =? _) = true |- _ => apply Z.eqb_eq in E end;
+    repeat match goal with E : (pid _ =? _) = false |- _ => rewrite E end;
+    try (split; [reflexivity|]; cbn [andb]; reflexivity);
+    try (split; [reflexivity|];
+         match goal with E : pid _ = tpid_initialSourceConnectionID |- _ => rewrite E, Z.eqb_refl end;
+         match goal with E : ptyped _ = _ |- _ => rewrite E end;
+         match goal with E : pval _ = _ |- _ => rewrite E end; cbn; try rewrite E; reflexivity).
+  all: try (exfalso;
+            match goal with E : pid ?q = tpid_initialSourceConnectionID, T : ptyped ?q = true, V : pval ?q = _ :: _ |- _ =>
+              specialize (Hn E T); congruence end).
+  all: try (split; [reflexivity|]; destruct p' as [i v0 t]; cbn in *; subst; cbn;
+            repeat match goal with E : (_ =? _) = false |- _ => rewrite E end; reflexivity).
+Qed.
+
+Lemma populate_loop_fill ps : forall v v' ps',
+  populate_loop v ps = Some (v', ps') -> Forall no_explicit ps ->
+  vInitialSourceConnectionID v' = vInitialSourceConnectionID v /\
+  ps' = map (fill_typed (vInitialSourceConnectionID v)) ps.
+Proof.
+  induction ps as [|p ps IH]; intros v v' ps' H Hn; cbn in H.
+  - inversion H; subst. split; reflexivity.
+  - destruct (pop_step v p) as [[v1 p1]|] eqn:E1; [|discriminate].
+    destruct (populate_loop v1 ps) as [[v2 r]|] eqn:E2; [|discriminate].
+    inversion H; subst; clear H. inversion Hn as [|? ? Hp Hps]; subst.
+    destruct (pop_step_fill _ _ _ _ E1 Hp) as [Hs Hf].
+    destruct (IH _ _ _ E2 Hps) as [Hs2 Hf2]. rewrite Hs in Hs2, Hf2.
+    split; [exact Hs2 | cbn; rewrite Hf, Hf2; reflexivity].
+Qed.
+
+Lemma no_explicit_dial_list sup rnd js ps : Forall no_explicit ps -> Forall no_explicit (dial_list sup rnd js ps).
+Proof.
+  intros H. assert (Hs : Forall no_explicit (suppress sup ps)).
+  { rewrite Forall_forall in *. intros p Hin. apply suppress_In in Hin as [Hin _]. apply H, Hin. }
+  unfold dial_list. destruct rnd; [|exact Hs].
+  eapply Permutation_Forall; [apply shuffle_perm | exact Hs].
+Qed.
+
+(** C11_wire_values *)
+Theorem wire_values sup rnd js scid ps v ps' ov :
+  Forall no_explicit ps ->
+  dial sup rnd js scid ps = Some (v, ps', ov) ->
+  ps' = map (fill_typed scid) (dial_list sup rnd js ps) /\
+  vInitialSourceConnectionID v = scid /\ ov = marshal ps'.
+Proof.
+  intros Hn H. unfold dial, populate in H.
+  destruct (populate_loop (init_view scid) (dial_list sup rnd js ps)) as [[v1 l1]|] eqn:E; [|discriminate].
+  inversion H; subst; clear H.
+  destruct (populate_loop_fill _ _ _ _ E (no_explicit_dial_list sup rnd js ps Hn)) as [Hv Hl].
+  cbn in Hv, Hl. auto.
 Qed.
